@@ -795,7 +795,7 @@ func (f Float) LaxEqual(other Value) bool {
 	if other.IsReference() {
 		switch o := other.AsReference().(type) {
 		case *BigInt:
-			return f == o.ToFloat()
+			return EqBigIntFloat64(o.ToGoBigInt(), float64(f))
 		case *BigFloat:
 			if f.IsNaN() || o.IsNaN() {
 				return false
@@ -803,9 +803,9 @@ func (f Float) LaxEqual(other Value) bool {
 			fBigFloat := (&BigFloat{}).SetFloat(f)
 			return fBigFloat.Cmp(o) == 0
 		case Int64:
-			return f == Float(o)
+			return EqInt64Float64(int64(o), float64(f))
 		case UInt64:
-			return f == Float(o)
+			return EqUint64Float64(uint64(o), float64(f))
 		case Float64:
 			return float64(f) == float64(o)
 		default:
@@ -815,25 +815,25 @@ func (f Float) LaxEqual(other Value) bool {
 
 	switch other.ValueFlag() {
 	case SMALL_INT_FLAG:
-		return f == Float(other.AsSmallInt())
+		return EqInt64Float64(int64(other.AsSmallInt()), float64(f))
 	case FLOAT_FLAG:
 		return f == other.AsFloat()
 	case INT64_FLAG:
-		return f == Float(other.AsInlineInt64())
+		return EqInt64Float64(int64(other.AsInlineInt64()), float64(f))
 	case INT32_FLAG:
-		return f == Float(other.AsInt32())
+		return EqInt64Float64(int64(other.AsInt32()), float64(f))
 	case INT16_FLAG:
-		return f == Float(other.AsInt16())
+		return EqInt64Float64(int64(other.AsInt16()), float64(f))
 	case INT8_FLAG:
-		return f == Float(other.AsInt8())
+		return EqInt64Float64(int64(other.AsInt8()), float64(f))
 	case UINT64_FLAG:
-		return f == Float(other.AsInlineUInt64())
+		return EqUint64Float64(uint64(other.AsInlineUInt64()), float64(f))
 	case UINT32_FLAG:
-		return f == Float(other.AsUInt32())
+		return EqUint64Float64(uint64(other.AsUInt32()), float64(f))
 	case UINT16_FLAG:
-		return f == Float(other.AsUInt16())
+		return EqUint64Float64(uint64(other.AsUInt16()), float64(f))
 	case UINT8_FLAG:
-		return f == Float(other.AsUInt8())
+		return EqUint64Float64(uint64(other.AsUInt8()), float64(f))
 	case FLOAT64_FLAG:
 		return float64(f) == float64(other.AsInlineFloat64())
 	case FLOAT32_FLAG:
